@@ -639,6 +639,9 @@ def c11(pid, tier, seed, t0):
     for line in known:
         print(line)
     PROOFS["C11"] = tlaps_leg(["UpperBitsStayZero"])
+    # spec -> impl on the arbitrary-int bases: TLC-simulated behaviours (incl. rewrap = new_with_raw_value(raw_value())) replayed
+    # on the real objects, raw value AND storage integer compared after every step
+    SIMS["C11"] = sim_leg(pid, tier, seed, "rt-c11", decls, declfile, q(tier, 40, 600), q(tier, 25, 50))
     sym(pid, decls, ops=("with", "set"))
     mc.append({"config": "verdict events (layouts reaching above bit N-1 on 13 arbitrary-int bases, with controls) validated against Decl!Valid",
                "distinct": vstates, "generated": len(vev), "wall_s": 0})
